@@ -14,7 +14,10 @@ def run(ctx):
     cap = 20000 if quick else 160000
     if len(behs) > cap:
         behs = random.Random(ctx.seed).sample(behs, cap)
-    ctx.say("  behaviours: %d of %d (every sequence of %d edits (thorough: plus seeded walks of 3 and 5 edits) on each of 7 files in 18 file / layout combinations; each file rendered with seeded odd spacing, tabs, blank lines)" % (len(behs), total, 2))
+    # every history of three (thorough: four) edits on the smallest files: item lists that become empty and are filled again
+    small = core.generate(ctx, "WriteEdit_Docs.tla", "Gen_WriteEdit_small3.cfg" if quick else "Gen_WriteEdit_small4.cfg", 0, 0, ctx.seed, bfs=True, timeout=2500)
+    behs += small; total += len(small)
+    ctx.say("  behaviours: %d of %d (every sequence of %d edits (thorough: plus seeded walks of 3 and 5 edits) on each of 9 files in 20 file / layout combinations, plus every history of %d edits on the three smallest files; each file rendered with seeded odd spacing, tabs, blank lines)" % (len(behs), total, 2, 3 if quick else 4))
     hb = core.build_harness(ctx)
     trace, summ = core.run_harness(ctx, hb, "writeedit", behs, "writeedit", timeout=2500)
     for inc in summ["incidents"]:
